@@ -347,16 +347,16 @@ class NumberSlice(Contract):
 
 # remainder != 0 (chunks of two different lengths glued by insert/append): the quantified argument is not found
 # by z3 within the budget on the unchanged tree -> not registered; covered by the exhaustive lattice run (bounded)
-PPI_CASES = [dict(last_full=lf, rem=rem) for lf in (True, False) for rem in ("zero",)]
+PPI_CASES = [dict(last_full=lf, rem=rem) for lf in (True, False) for rem in ("zero",)] + [dict(last_full=True, rem="zero", bad_reference=True)]
 
 
-@contract(IV + "PointsPerIntervalSlicer._slice", ["C10", "C09"], PPI_CASES, name="slicer.points.slice")
+@contract(IV + "PointsPerIntervalSlicer._slice", ["C10", "C09", "C18"], PPI_CASES, name="slicer.points.slice")
 class PointsSlice(Contract):
     """chunks of n_points consecutive order statistics: mask j marks, by INPUT position, the observations whose
     rank falls in chunk j (remainder chunk first if last_full else last)"""
 
     def case_label(self, case):
-        return f"last_full={case['last_full']},remainder={case['rem']}"
+        return f"last_full={case['last_full']},remainder={case['rem']}" + (",reference=str" if case.get("bad_reference") else "")
 
     def setup(self, itp, case):
         from vf.engine.vc import ContractStop
@@ -377,12 +377,15 @@ class PointsSlice(Contract):
         cx.assume(T.land(T.eq(self.n, self.q * self.np_.t + self.r), T.ge(self.r, 0), T.lt(self.r, self.np_.t), T.ge(self.q, 1)), "n = q * n_points + r")
         cx.assume(T.eq(self.r, 0) if case["rem"] == "zero" else T.gt(self.r, 0))
         self.data = sym_array(cx, "data", (self.n,))
-        self.obj = slicer_obj("PointsPerIntervalSlicer", n_points=self.np_, reference=callable_ref(cx), last_full=case["last_full"])
+        self.obj = slicer_obj("PointsPerIntervalSlicer", n_points=self.np_, reference=("center" if case.get("bad_reference") else callable_ref(cx)), last_full=case["last_full"])
         itp.scratch["split_width_hint"] = self.np_.t
         return [self.obj, self.data], {}
 
     def post(self, itp, case, inp, out):
         cx = itp.cx
+        if case.get("bad_reference"):
+            cx.oblige("raises.TypeError.reference", out.outcome == "raise" and out.exc == "TypeError", "raises", "a reference that is not callable is rejected")
+            return
         pre = itp.scratch.get("predrop")
         if pre is None:
             cx.oblige("post.drop_applied", False, "post", f"{out.outcome} {out.exc} {out.msg}")
